@@ -458,6 +458,7 @@ func runC15(c *report.Ctx) {
 		}
 	}
 	ruleAmountStringUntouched(c)
+	ruleDigitsTrimmedOnlyByConverters(c)
 	ruleAmountCtorErrorUsed(c)
 	ruleAmountsNeverFloat(c)
 }
